@@ -114,7 +114,9 @@ def det_worker(args):
                     if route == "ODE":
                         from pygom import Transition
                         terms = build.ode_terms_of_event(sy, proc)
-                        for st_, eqn in terms:
+                        # every term is entered as two halves: two ODE-type transitions with the same origin add up
+                        half = [(st_, codec.pscale(Fraction(1, 2), eqn)) for st_, eqn in terms]
+                        for st_, eqn in half + half:
                             m.add_ode(Transition(origin=sy.states[st_ - 1], equation=codec.render(sy, eqn, rng.randrange(6), rng),
                                                  transition_type="ODE"))
                         odes = list(odes) + [{"kind": "ode", "st": st_, "eqn": eqn} for st_, eqn in terms]
